@@ -83,6 +83,20 @@ def run(rep, tier, rng, forms=None, oracle="arith"):
             val[e] = r[2:]
         else:
             rep.violation({"what": "operand expression did not evaluate to a number", "form": e, "implementation": r})
+    # the operands themselves: a LITERAL integer or ratio denotes the number its digits spell - as an exact number equal to it when
+    # its lowest terms fit the exact range, and never as a DIFFERENT exact number
+    import re
+    from fractions import Fraction
+    for e in operands:
+        if e in val and re.fullmatch(r"[+-]?\d+(/\d+)?", e) and not e.endswith("/0"):
+            want = Fraction(e)
+            got_exact = G.exact_of(val[e])
+            rep.count(); rep.nontrivial(("literal", e))
+            fits = -2**31 <= want.numerator < 2**31 and want.denominator < 2**31
+            if (got_exact is not None and got_exact != want) or (fits and got_exact is None):
+                rep.violation({"what": "implementation breaks the property", "form": e, "implementation": "V " + val[e],
+                               "problem": "the literal %s denotes %s%s" % (e, want, " exactly (its lowest terms fit the exact range)" if fits else
+                                                                            "; an exact number different from it was produced")})
     model_cases, index = [], []
     for k, (op, es) in enumerate(forms):
         if not all(e in val for e in es):
